@@ -70,6 +70,9 @@ def check(run):
             if "afterclear=0" not in trailer or "leaked=0" not in trailer or "MISUSE" in trailer or "NOT-REUSABLE" in trailer:
                 oracle_fail.append((cfg, line[:3000], "all memory returned on clear()/destruction, no misuse, document usable after clear()", trailer + f" [geometry {defs}]"))
                 continue
+            if "POST-SUCCESS-INCOMPLETE" in o or "POST-FAILURE-NOT-FLAGGED" in o:
+                oracle_fail.append((cfg, line[:3000], "a deep copy made while allocations keep failing either reports failure (with overflowed() set) or is complete", ("POST-SUCCESS-INCOMPLETE" if "POST-SUCCESS-INCOMPLETE" in o else "POST-FAILURE-NOT-FLAGGED") + f" [geometry {defs}]"))
+                continue
             # first step at which the failing run departs from the failure-free one
             j = None
             for i, (b, f) in enumerate(zip(bsteps, fsteps)):
